@@ -216,7 +216,9 @@ impl Reporter {
                     "rerun": format!("cd /verif && ./check {} --replay {}", self.id, p.display())});
                 let _ = std::fs::write(&p, serde_json::to_string_pretty(&body).unwrap());
                 println!("VIOLATION property={} replay={}", self.id, p.display());
-                eprintln!("  key: {}", truncate(&v.key, 300));
+                if n < 8 {
+                    eprintln!("  key: {}", truncate(&v.key, 400));
+                }
             }
             if real.len() > 25 {
                 println!("... {} further violations not written out", real.len() - 25);
